@@ -4078,6 +4078,7 @@ int32_t getExplicitExtensions(psPool_t *pool, const unsigned char **pp,
     psSize_t len, fullExtLen;
     psAsnOid_t asnOid;
     oid_e noid;
+    uint32_t seenExts = 0;
 
 #  ifdef USE_FULL_CERT_PARSE
     psSize_t subExtLen;
@@ -4160,6 +4161,18 @@ KNOWN_EXT:
         }
         noid = psOidToEnum(asnOid);
         p += len;
+        /* RFC 5280, 4.2: "A certificate MUST NOT include more than one
+           instance of a particular extension." A second instance would
+           overwrite (and leak) what was stored for the first one. */
+        if (noid != 0)
+        {
+            if (seenExts & ((uint32_t) 1 << noid))
+            {
+                psTraceCrypto("Duplicate extension\n");
+                return PS_PARSE_FAIL;
+            }
+            seenExts |= ((uint32_t) 1 << noid);
+        }
 /*
         Possible boolean value here for 'critical' id.  It's a failure if a
         critical extension is found that is not supported
